@@ -11,6 +11,9 @@ import Mps.Drv.Sig
 import Mps.Drv.Nonce
 import Mps.Drv.OT
 import Mps.Drv.ZK
+import Mps.Drv.Start
+import Mps.Drv.Malform
+import Mps.Drv.Codec
 /-
   mpsdriver: reads the harness' JSON lines on stdin, answers one line per operation with what
   the MODEL says: {"id":N,"model":{...}}. Core-only (no Mathlib below this file).
@@ -33,12 +36,16 @@ def dispatch (st : DState) (suite op : String) (inp : Json) : DState × Json :=
   | "nonce" => (st, Mps.Drv.Nonce.handle op inp)
   | "ot" => (st, Mps.Drv.OT.handle op inp)
   | "zk" => (st, Mps.Drv.ZK.handle op inp)
+  | "start" => (st, Mps.Drv.Start.handle op inp)
+  | "malform" => (st, Mps.Drv.Malform.handle op inp)
+  | "codec" => (st, Mps.Drv.Codec.handle op inp)
   | "session" => (st, Mps.Drv.Session.handle op inp)
   | "handler" | "handlerconc" => let (h, j) := Mps.Drv.Handler.handle st.handler op inp; ({ st with handler := h }, j)
   | _ => (st, jobj [("error", "unknown suite")])
 
 def statelessSuites : List String :=
   ["zk", "frame", "session", "sig", "nonce", "alg", "algfind", "paillier", "ot", "pool",
+   "start", "malform", "codec",
    "sess-keygen", "sess-sign", "sess-refresh", "sess-derive", "sess-tamper", "sess-presign-abort"]
 
 def flush (hout : IO.FS.Stream) (pending : Array (Task String)) : IO Unit := do
